@@ -101,9 +101,25 @@ def writer_classes(prog):
     return table, fn
 
 
+_TT_CACHE = {}
+
+
 def tokeniser_table(prog):
     """{(state, char, line_continuation): outcome} with outcome =
     ('append', next_state) | ('escape', next_state) | ('special', description)"""
+    if id(prog) not in _TT_CACHE:
+        _TT_CACHE[id(prog)] = _tokeniser_table(prog)
+    return _TT_CACHE[id(prog)][:3]
+
+
+def tokeniser_flags(prog):
+    """{(state, char, line_continuation): set of values the "inside parentheses" flag has after the transition
+    (True / False assigned on the path, None = left as it was)}"""
+    tokeniser_table(prog)
+    return _TT_CACHE[id(prog)][3]
+
+
+def _tokeniser_table(prog):
     fn = prog.find("zones::deserialise::tokenise_entry")
     res = A.Resolver(fn)
     conds = A.Conds(fn, res)
@@ -126,6 +142,7 @@ def tokeniser_table(prog):
     lc = cands[0]
     cpath = "param1.[]"
     table = {}
+    flags = {}
     for st in states:
         for ch in list(range(128)) + [0xE9, 0xA0]:
             for lcv in (False, True):
@@ -145,8 +162,12 @@ def tokeniser_table(prog):
                     if ok:
                         hits.append(pth)
                 outs = set()
+                fl = set()
                 for hp in hits:
                     facts, events, end = hp
+                    sets_ = [A.peel(res.rvalue(stt["rv"], (b, 0))) for b in hp.blocks for stt in fn.stmts(b)
+                             if stt["k"] == "assign" and A.is_plain_local(stt["dst"]) and stt["dst"]["l"] == lc]
+                    fl.add(None if not sets_ else (bool(sets_[-1][2]) if sets_[-1][0] == "const" else "?"))
                     names_ = [e[1] for b, e in events]
                     appended = any(n.endswith("String::push") for n in names_) and any(n.endswith("put_u8") for n in names_)
                     escaped = any(n.endswith("tokenise_escape") for n in names_)
@@ -168,7 +189,8 @@ def tokeniser_table(prog):
                     kind_ = ("escape" if appended else "escape-lost") if escaped else ("append" if appended and not tok_end else "special")
                     outs.add((kind_, tok_end, nxts[-1] if nxts else None))
                 table[(st, ch, lcv)] = outs
-    return table, fn, states
+                flags[(st, ch, lcv)] = fl
+    return table, fn, states, flags
 
 
 def _blocks_of(fn, facts, events, start, end):
